@@ -5,4 +5,4 @@ from checks.rt_common import run_rt, COMMON_ASSUMPTIONS
 def run(tier, replay=None):
     return run_rt("C01", tier, replay, "deps", COMMON_ASSUMPTIONS + [
         "arguments read by each job (_args, _chunk_outs) and the top-level _outs are compared with MroSem as JSON values; null / empty collection / collection of nulls are identified only where MroSem predicts a nullish value (disabled or empty mapped call)",
-    ])
+    ], mc=())
